@@ -661,6 +661,76 @@ func main() {
 	}
 	fmt.Fprintf(&out, "/-- every slice / index expression of tick/ast/parser.go and tick/ast/node.go: (function, source). -/\ndef astSliceSites : List (String × String) := [%s]\n\n", strings.Join(astSites, ",\n  "))
 
+	// tick/eval.go: the recover closure of evalFunc and what it protects
+	var recBody2 *ast.BlockStmt
+	defersRec, defersKnown := false, false
+	if fd := findFunc(evalGo, "", "evalFunc"); fd != nil {
+		ast.Inspect(fd.Body, func(x ast.Node) bool {
+			if as, ok := x.(*ast.AssignStmt); ok && len(as.Lhs) == 1 && len(as.Rhs) == 1 && src(as.Lhs[0]) == "rec" {
+				if fl, ok := as.Rhs[0].(*ast.FuncLit); ok {
+					recBody2 = fl.Body
+				}
+			}
+			// fnc := unboundFunc(func(obj interface{}) (…) { defer rec(obj, &err); … })
+			if ce, ok := x.(*ast.CallExpr); ok && src(ce.Fun) == "unboundFunc" && len(ce.Args) == 1 {
+				if fl, ok := ce.Args[0].(*ast.FuncLit); ok {
+					defersKnown = true
+					if len(fl.Body.List) > 0 {
+						if d, ok := fl.Body.List[0].(*ast.DeferStmt); ok && src(d.Call.Fun) == "rec" {
+							defersRec = true
+						}
+					}
+				}
+			}
+			return true
+		})
+	}
+	fmt.Fprintf(&out, "/-- tick/eval.go: the closure `rec` of `evalFunc` (deferred around every reflective call). -/\ndef evalFuncRecover : DeferShape := %s\n", shape(recBody2))
+	fmt.Fprintf(&out, "/-- the function value built by `evalFunc` starts with `defer rec(obj, &err)`. -/\ndef evalFuncDefersRec : Option Bool := %s\n\n", optBool(defersKnown, defersRec))
+
+	// inventory of slice / index / unchecked type-assertion sites of the evaluator (tick/eval.go, tick/stack.go)
+	var evalSites []string
+	for _, rel := range []string{"tick/eval.go", "tick/stack.go"} {
+		f := parseFile(repo, rel)
+		for _, d := range f.Decls {
+			fd, ok := d.(*ast.FuncDecl)
+			if !ok || fd.Body == nil {
+				continue
+			}
+			recv := ""
+			if fd.Recv != nil && len(fd.Recv.List) == 1 {
+				recv = strings.TrimPrefix(src(fd.Recv.List[0].Type), "*") + "."
+			}
+			commaOK := map[ast.Expr]bool{}
+			ast.Inspect(fd.Body, func(x ast.Node) bool {
+				if as, ok := x.(*ast.AssignStmt); ok && len(as.Lhs) == 2 && len(as.Rhs) == 1 {
+					commaOK[as.Rhs[0]] = true
+				}
+				if ts, ok := x.(*ast.TypeSwitchStmt); ok {
+					ast.Inspect(ts.Assign, func(y ast.Node) bool {
+						if ta, ok := y.(*ast.TypeAssertExpr); ok {
+							commaOK[ta] = true
+						}
+						return true
+					})
+				}
+				return true
+			})
+			ast.Inspect(fd.Body, func(x ast.Node) bool {
+				switch t := x.(type) {
+				case *ast.SliceExpr, *ast.IndexExpr:
+					evalSites = append(evalSites, fmt.Sprintf("(%s, %s)", leanStr(recv+fd.Name.Name), leanStr(src(x))))
+				case *ast.TypeAssertExpr:
+					if !commaOK[t] && t.Type != nil {
+						evalSites = append(evalSites, fmt.Sprintf("(%s, %s)", leanStr(recv+fd.Name.Name), leanStr(src(x))))
+					}
+				}
+				return true
+			})
+		}
+	}
+	fmt.Fprintf(&out, "/-- every slice / index / unchecked type-assertion expression of tick/eval.go and tick/stack.go. -/\ndef evalSliceSites : List (String × String) := [%s]\n\n", strings.Join(evalSites, ",\n  "))
+
 	out.WriteString("end Kap.C05.Gen\n")
 	path := filepath.Join(lean, "Kap", "Gen", "C05.lean")
 	os.MkdirAll(filepath.Dir(path), 0o755)
